@@ -316,6 +316,7 @@ def main(quick=False):
     audit("SpecRagged x[ragged mask]", *both(lambda x: x[:, 1:][x[:, :-1] != x[:, 1:]]), [(r,) for r in ROWS + [Rows([[1, 1, 2], [3, 3]]), Rows([[4, 5, 5, 6]])]], max_index=8)
     audit("SpecRagged row max / min", *both(lambda x: (x.max(axis=-1), x.min(axis=-1))), [(r,) for r in ROWS], max_index=8)
     audit("SpecRagged nonzero", *both(lambda x: np.nonzero(x[:, :-1] != x[:, 1:])), [(r,) for r in ROWS + [Rows([[1, 1, 2], [3, 3]]), Rows([[4, 5, 5, 6]])]], max_index=8)
+    audit("SpecRagged astype (int -> bool -> int)", *both(lambda x: (x - 2).astype(bool).astype(np.int64)), [(r,) for r in ROWS], max_index=8)
     audit("SpecRagged x[rows, cols]", *both(lambda x: x[np.arange(len(x) if not isinstance(x, SpecRagged) else int(str(x._shape.n))), np.zeros(len(x) if not isinstance(x, SpecRagged) else int(str(x._shape.n)), dtype=int)]),
           [(r,) for r in ROWS], max_index=8)
     audit("uint64 shifts (shift >= 64 gives 0)", lambda m, x, s: (x << s, x >> s), lambda m, x, s: (x << s, x >> s),
